@@ -505,7 +505,11 @@ class PrettyPrinter:
             # for multiple comments associated with an attribute
             # simply join them together as a single string
             if isinstance(value, list):
-                value = " ".join(value)
+                # a comment starting with # runs to the end of the line, so place these
+                # after any /* */ comments (which can also span several lines)
+                value = " ".join(
+                    sorted(value, key=lambda c: str(c).lstrip().startswith("#"))
+                )
 
             comment = self.format_comment(spacer, value)
 
